@@ -102,7 +102,17 @@ func check(args []string) int {
 }
 
 func mustLoad() *core.Program {
-	P, err := core.Load(core.RepoDir(), nil)
+	var ov map[string][]byte
+	if pf := os.Getenv("ELYSLINT_PATCH"); pf != "" {
+		// debugging aid: analyse /repo with a patch applied in memory
+		o, err := rules.OverlayFor(core.RepoDir(), pf, os.Getenv("ELYSLINT_PATCH_REVERSE") != "")
+		if err != nil {
+			fmt.Fprintln(os.Stderr, "patch:", err)
+			os.Exit(2)
+		}
+		ov = o
+	}
+	P, err := core.Load(core.RepoDir(), ov)
 	if err != nil {
 		fmt.Fprintln(os.Stderr, err)
 		os.Exit(2)
@@ -148,6 +158,21 @@ func dump(args []string) {
 		ff := P.Facts(fn)
 		fmt.Println("=====", key, P.Pos(fn.Pos()))
 		for _, b := range fn.Blocks {
+			if os.Getenv("ELYSLINT_DUMP_BLOCKS") != "" && len(b.Instrs) > 0 {
+				var fs []string
+				for _, a := range ff.At(b.Instrs[len(b.Instrs)-1]) {
+					fs = append(fs, ff.AtomString(a))
+				}
+				sort.Strings(fs)
+				var ps, ss []string
+				for _, p := range b.Preds {
+					ps = append(ps, fmt.Sprint("b", p.Index))
+				}
+				for _, p := range b.Succs {
+					ss = append(ss, fmt.Sprint("b", p.Index))
+				}
+				fmt.Printf("BLOCK b%d preds=%v succs=%v last=%s\n      facts at end: %s\n", b.Index, ps, ss, b.Instrs[len(b.Instrs)-1], strings.Join(fs, " ; "))
+			}
 			for _, in := range b.Instrs {
 				c, ok := in.(ssa.CallInstruction)
 				if !ok {
